@@ -446,7 +446,7 @@ func (w *Watcher) Run(ctx context.Context) error {
 						// Check multiple possible error cases - the node seems to return a
 						// "not found" error most of the time, but it could conceivably also
 						// return a nil tx or rpc.ErrNoResult.
-						if tx == nil || err == rpc.ErrNoResult || (err != nil && err.Error() == "not found") {
+						if (tx == nil && err == nil) || err == rpc.ErrNoResult || (err != nil && err.Error() == "not found") {
 							logger.Warn("tx was orphaned",
 								zap.Stringer("tx", pLock.message.TxHash),
 								zap.Stringer("blockhash", key.BlockHash),
@@ -459,25 +459,6 @@ func (w *Watcher) Run(ctx context.Context) error {
 								zap.Error(err))
 							delete(w.pending, key)
 							ethMessagesOrphaned.WithLabelValues(w.networkName, "not_found").Inc()
-							continue
-						}
-
-						// This should never happen - if we got this far, it means that logs were emitted,
-						// which is only possible if the transaction succeeded. We check it anyway just
-						// in case the EVM implementation is buggy.
-						if tx.Status != 1 {
-							logger.Error("transaction receipt with non-success status",
-								zap.Stringer("tx", pLock.message.TxHash),
-								zap.Stringer("blockhash", key.BlockHash),
-								zap.Stringer("emitter_address", key.EmitterAddress),
-								zap.Uint64("sequence", key.Sequence),
-								zap.Stringer("current_block", ev.Number),
-								zap.Bool("is_safe_block", ev.Safe),
-								zap.Stringer("current_blockhash", currentHash),
-								zap.String("eth_network", w.networkName),
-								zap.Error(err))
-							delete(w.pending, key)
-							ethMessagesOrphaned.WithLabelValues(w.networkName, "tx_failed").Inc()
 							continue
 						}
 
@@ -512,6 +493,25 @@ func (w *Watcher) Run(ctx context.Context) error {
 								zap.Stringer("current_blockhash", currentHash),
 								zap.String("eth_network", w.networkName),
 								zap.Error(err))
+							continue
+						}
+
+						// This should never happen - if we got this far, it means that logs were emitted,
+						// which is only possible if the transaction succeeded. We check it anyway just
+						// in case the EVM implementation is buggy.
+						if tx.Status != 1 {
+							logger.Error("transaction receipt with non-success status",
+								zap.Stringer("tx", pLock.message.TxHash),
+								zap.Stringer("blockhash", key.BlockHash),
+								zap.Stringer("emitter_address", key.EmitterAddress),
+								zap.Uint64("sequence", key.Sequence),
+								zap.Stringer("current_block", ev.Number),
+								zap.Bool("is_safe_block", ev.Safe),
+								zap.Stringer("current_blockhash", currentHash),
+								zap.String("eth_network", w.networkName),
+								zap.Error(err))
+							delete(w.pending, key)
+							ethMessagesOrphaned.WithLabelValues(w.networkName, "tx_failed").Inc()
 							continue
 						}
 
